@@ -115,6 +115,45 @@ CHECKS = {
              "bytes (Hypothesis + coverage-guided fuzzing) run in a buffer whose terminator is the last accessible byte. Exploration.",
         note="Trusted: page protection/canaries, the dialect recogniser (for the strict-input oracle inside the fuzz target).",
         ref="3 C13"),
+    "C15": dict(
+        technique="differential testing (Hypothesis documents x pointer strings: true pointers, single edits, free strings) against an RFC 6901 reference resolver; exhaustive (root,node) pairs per document for construction",
+        text="GetPointerCaseSensitive must return exactly the node the Python RFC 6901 resolver designates (by position) or NULL, for true "
+             "pointers, one-edit corruptions (digits/letters/sign/leading zero/escape swaps/2^64+k/case flips) and free strings over the "
+             "pointer alphabet, on documents with awkward keys and arrays up to 64 elements; FindPointerFromObjectTo is checked for every "
+             "(container, node) pair of each document: exact escaped text, inverse, allocator. Exploration.",
+        note="Trusted: verif/rfc.py (validated on the 132 conformance cases shipped with the repository). Keys distinct per object.",
+        ref="3 C15"),
+    "C16": dict(
+        fuzz=True,
+        technique="differential testing against an RFC 6902 reference evaluator with patches generated against the evolving document (Hypothesis), robustness by arbitrary patches and libFuzzer fz_patch",
+        engine="hypothesis/ctypes shim + libFuzzer fz_patch",
+        text="For generated (document, patch) pairs - valid operations at drawn locations and 18 failure classes, drawn against the evolving "
+             "reference state - the status must be 0 exactly when the Python RFC 6902 evaluator succeeds and the document must then equal its "
+             "result; for arbitrary JSON values as patch (incl. grafted junk, invalid pointers, fuzzed texts) nothing may crash or leak and the "
+             "document must stay structurally sound. Exploration.",
+        note="Trusted: verif/rfc.py. 'remove' of the whole document is excluded from conformance (left open by the property).",
+        ref="3 C16"),
+    "C17": dict(
+        technique="property-based round-trip testing (Hypothesis pairs: edits of a document or independent) with an independent RFC 6902 evaluator and the library's own applier",
+        text="The generated patch must be a well-formed add/remove/replace array, transform 'from' into 'to' under the Python reference and "
+             "under the library itself, be empty iff the documents are equal, and leave both inputs equal in value, structurally sound and "
+             "still accepting appends in every container. Exploration.",
+        note="Trusted: verif/rfc.py, model.eq_set. Numbers on a 1/8 grid so tolerance and exact equality coincide.",
+        ref="3 C17"),
+    "C18": dict(
+        technique="differential testing against an RFC 7396 reference (Hypothesis (target, patch) and (from, to) pairs, object-heavy with case-variant keys)",
+        text="MergePatchCaseSensitive must equal the Python RFC 7396 reference on independent and target-derived patches (nulls at depth, "
+             "non-object patches/targets); the generated merge patch applied by the reference and by the library must turn 'from' into 'to' "
+             "(no null object members in 'to'), be NULL only when nothing changes, and leave both inputs intact and usable. Exploration.",
+        note="Trusted: verif/rfc.py (RFC 7396 appendix examples pass). Keys distinct per object.",
+        ref="3 C18"),
+    "C19": dict(
+        technique="model-based stateful testing: sort operations and internally sorting utilities interleaved with C06 edit programs, model re-synchronised by node identity",
+        text="Each SortObject[CaseSensitive] call on any object of any live tree must give non-decreasing keys over exactly the same member "
+             "nodes and be idempotent; after it and after patch 'test', GeneratePatches, GenerateMergePatch, every live tree must equal the "
+             "list/map model after every further append/insert/detach/replace/print/delete. Exploration over histories.",
+        note="Order among equal keys is not asserted (no stability claim). Trusted: the C06 model.",
+        ref="3 C19"),
 }
 
 PENDING = {
